@@ -1005,7 +1005,7 @@ class Variable(CanBehaveLikeAVariable[T]):
             # (of a comparator, an attribute access, ...) a falsy value such as 0 is a value like any other.
             is_false = False
             if (
-                isinstance(self._parent_, LogicalBinaryOperator)
+                isinstance(self._parent_, LogicalOperator)
                 or self is self._conditions_root_
             ):
                 is_false = not bool(sources[self._id_])
